@@ -20,8 +20,12 @@
 (* inflate / bunzip2 of payloads is outside TLA+ (Python zlib/bz2).        *)
 (*                                                                         *)
 (* Named deviations ("dialect" record d).  The standard format is d = Std. *)
-(* Each flag describes one place where the library under test is known to  *)
-(* differ from the published format; the flags exist so that TLC can (i)   *)
+(* Each flag describes one place where the library under test differed     *)
+(* from the published format when this specification was written (tail,     *)
+(* pathkey, rawtable, oneblock were repaired in /repo by d86b8d5, f4d4c14, *)
+(* 9cf2783, 0f74d94: the library as coded is the Std dialect now; they are  *)
+(* kept as must-refute variants, crclayout is still open).  The flags exist *)
+(* so that TLC can (i)                                                      *)
 (* show on the model that the deviation breaks interoperability and (ii)   *)
 (* attribute a rejected file of a real trace to a *named* deviation        *)
 (* instead of masking everything that happens on the same files:           *)
